@@ -499,6 +499,8 @@ def b_floor(it, x):
 
 def b_isinstance(it, x, cls):
     classes = cls if isinstance(cls, tuple) else (cls,)
+    if isinstance(x, PyObjV):
+        return any(isinstance(c, ClassV) and CLASSES.is_subclass(x.cls, c.name) for c in classes)
     if isinstance(x, ObjV):
         res = []
         for c in classes:
